@@ -607,7 +607,11 @@ def engine_fails(case, eng, base) -> List[Tuple[str, Dict[str, Any], str]]:
             continue
         for (w, turn, exc, where, text) in fl:
             key = (w, exc, where)
-            if base is not None and key in {(b[0], b[2], b[3]) for b in (base.get(mode) or [])}:
+            # the omitted-everything config already fails like this (in the same mode, or - when the vector wipes
+            # the completed section again, e.g. t1: 5 - in the bare mode): the defaults' class, not the vector's
+            base_keys = {(b[0], b[2], b[3]) for m in ("bare", "complete") for b in ((base or {}).get(m) or [])} if elems else \
+                        {(b[0], b[2], b[3]) for b in ((base or {}).get(mode) or [])}
+            if key in base_keys:
                 if not elems:
                     out.append(("EngineRunsUnderAccepted", {"cause": "defaults-incomplete", "exc": exc, "where": where},
                                 f"[validate_config({{}}) / {mode}] world {w} turn {turn}: {exc} at {where}: {text}"))
@@ -789,7 +793,7 @@ def real_cli(args) -> List[Tuple[str, Dict[str, Any], str, Any]]:
 # check
 # =============================================================================================
 INVS = ["VerdictTotal", "OmittedEverythingAccepted", "RejectHasCause", "FaultsInsideVector", "InvalidLeafDominates",
-        "AllMidCornerAccepted", "CornersAreDefinite", "TableWellFormed"]
+        "AllMidCornerAccepted", "CornersAreDefinite"]
 
 
 def check_table(tab) -> None:
@@ -859,14 +863,16 @@ def check(run) -> None:
     single_sig: Dict[Tuple[str, str, int, int], Dict[str, Any]] = {}
     single_any: set = set()
 
+    pending: Dict[str, List[Tuple]] = collections.OrderedDict()
+
     def record(clause, sig, msg, case, extra=None):
         s = dict(sig)
         s.setdefault("clause", clause)
         key = canon(s)
         per_sig[key] += 1
         if per_sig[key] <= MAX_WITNESS:
-            run.fail(clause, sig, {"vector": case["v"], "spec_verdict": case["verdict"], "spec_faults": case["faults"], "spec_rules": case["rules"]},
-                     msg, replay=dict({"case": case}, **(extra or {})))
+            pending.setdefault(key, []).append((clause, sig, {"vector": case["v"], "spec_verdict": case["verdict"], "spec_faults": case["faults"],
+                                                              "spec_rules": case["rules"]}, msg, dict({"case": case}, **(extra or {}))))
 
     for phase, sel in ((1, [c for c in cases if len(c["v"]) <= 1]), (2, [c for c in cases if len(c["v"]) == 2])):
         if not sel:
@@ -914,6 +920,10 @@ def check(run) -> None:
             counts["ok.SameVerdictAllApis.real_cli"] += 1
         for clause, sig, msg, case in fl:
             record(clause, sig, msg, dict({"verdict": None, "faults": [], "rules": []}, **case), {"real_cli": True})
+    for key, items in pending.items():
+        for clause, sig, wit, msg, rep in items:
+            run.fail(clause, sig, wit, f"{msg}  [{per_sig[key]} vector(s) show this class]", replay=rep)
+    os.chdir("/verif")
     # ---- accounting -------------------------------------------------------------------------
     run.traces += counts["vectors"]
     for c in cases:
@@ -941,7 +951,7 @@ def replay(rep) -> int:
     shutil.rmtree(wd, ignore_errors=True)
     os.makedirs(wd, exist_ok=True)
     base_res = eval_vector({"v": [], "verdict": "ACCEPT", "faults": [], "rules": [], "cls": []}, wd, {"engine": True})
-    out = process_chunk((0, [case], {"wd": wd, "seed": rep.get("seed", 0), "engine_base": base_res["engine"] if case["v"] else None,
+    out = process_chunk((0, [case], {"wd": wd, "seed": rep.get("seed", 0), "engine_base": base_res["engine"],
                                      "cli_frac": 1.0, "cli_single_frac": 1.0, "eng_single_frac": 1.0, "eng_pair_frac": 1.0}))
     fails = list(out["fails"])
     if r.get("real_cli"):
